@@ -81,7 +81,7 @@ def default_set(P, kind):
 KINDS = ('plain', 'renamed', 'split', 'changed', 'mix')
 VALUE_KINDS = ('default', 'variant', 'different', 'dquote', 'allow', 'deny',
                'empty', 'list1', 'list2', 'list0', 'alias', 'casevariant',
-               'aliasprefix')
+               'aliasprefix', 'aliaslist', 'aliasspaced')
 TEXT_KINDS = ('default', 'variant', 'different', 'allow', 'deny', 'empty',
               'casevariant')
 
@@ -120,6 +120,14 @@ def value(vk, name, defaults, successors):
         return []
     if vk == 'alias':
         return 'rule:%s' % successors[name][0] if name in successors else None
+    if vk == 'aliaslist':
+        # the alias written in the list-of-lists syntax
+        return [['rule:%s' % successors[name][0]]] \
+            if name in successors else None
+    if vk == 'aliasspaced':
+        # ... and as text with redundant blanks and parentheses
+        return '( rule:%s )' % successors[name][0] \
+            if name in successors else None
     if vk == 'aliasprefix':
         # NOT the alias: it mentions a rule whose name merely starts with the
         # successor's (undefined here, so the value is just role:d)
